@@ -78,19 +78,30 @@ def path_obligations(prefix, results, post, instance=None, fn_record=None, expec
         meta = dict(instance=instance, path=i)
         if fn_record:
             meta.update(function=fn_record["function"], file=fn_record["file"], lines=fn_record["lines"], sha256=fn_record["sha256"])
-        covers.append(cover(pname, r.hyps()))
+        facts = []
         with within(r.ctx):
             try:
                 for (name, extra, goal) in post(r):
+                    if name == "@fact":      # an instance of a precondition of the contract (e.g. P is PSD at this vector)
+                        facts.append(goal)
+                        continue
                     # hyps are read after post() ran, so definitional constraints it introduced are included
-                    obs.append(Obligation("%s/%s" % (pname, name), r.ctx.hyps() + list(extra), goal, dict(meta, goal=name)))
+                    obs.append(Obligation("%s/%s" % (pname, name), r.ctx.hyps() + list(extra) + facts, goal, dict(meta, goal=name)))
             except core.Unsupported as e:
                 # keep the side obligations generated so far; the path itself stays undecided (engine limit)
                 covers.append(dict(name="%s/engine-limit" % pname, status="engine-error", backend="-", time_s=0.0, model=None,
                                    meta=dict(meta, error=str(e))))
         for j, (sname, hyps, goal) in enumerate(r.ctx.side):
-            obs.append(Obligation("%s/%s#%d" % (pname, sname, j), hyps, goal, dict(meta, kind="side")))
+            obs.append(Obligation("%s/%s#%d" % (pname, sname, j), list(hyps) + facts, goal, dict(meta, kind="side")))
+        covers.append(cover(pname, r.ctx.hyps() + facts))
     return obs, covers
+
+
+def as_bool(v):
+    """python bool or SymBool -> z3 Bool"""
+    if isinstance(v, bool):
+        return z3.BoolVal(v)
+    return core._lb(v)
 
 
 def model_int(model, name, default=None):
